@@ -120,7 +120,7 @@ func TestC16_WireAfterAFailedWrite(t *testing.T) {
 			for j := range b {
 				b[j] = byte(k*31 + j*7 + 1)
 			}
-			api := rapid.SampledFrom([]string{"Write", "AsyncWrite", "WriteFrame", "ping"}).Draw(rt, "api")
+			api := rapid.SampledFrom([]string{"Write", "AsyncWrite", "WriteFrame", "ping", "twoFrames"}).Draw(rt, "api")
 			var err error
 			switch api {
 			case "Write":
@@ -142,6 +142,22 @@ func TestC16_WireAfterAFailedWrite(t *testing.T) {
 				f.SetPayload(b)
 				err = s.WriteFrame(f)
 				want = append(want, outItem{op: rfc6455.OpBinary, fin: true, payload: b, what: fmt.Sprintf("WriteFrame #%d", k)})
+			case "twoFrames":
+				// two frames taken from the stream's pool before either is written: they are two objects
+				f1, f2 := s.AcquireFrame(), s.AcquireFrame()
+				if f1 == f2 {
+					rt.Fatalf("two consecutive AcquireFrame calls returned the same frame object (%p) in the session after a failed write; trace=%v", f1, trace)
+				}
+				b2 := append([]byte("second-"), b...)
+				f1.SetFIN().SetOpcode(websocket.OpcodeBinary)
+				f1.SetPayload(b)
+				f2.SetFIN().SetOpcode(websocket.OpcodeText)
+				f2.SetPayload(b2)
+				if err = s.WriteFrame(f1); err == nil {
+					err = s.WriteFrame(f2)
+				}
+				want = append(want, outItem{op: rfc6455.OpBinary, fin: true, payload: b, what: fmt.Sprintf("first of two frames #%d", k)},
+					outItem{op: rfc6455.OpText, fin: true, payload: b2, what: fmt.Sprintf("second of two frames #%d", k)})
 			default:
 				if len(b) > 125 {
 					b = b[:125]
